@@ -268,6 +268,9 @@ func (s *seq) step(r *rand.Rand) {
 		ops = append(ops, "reopen-removed-gogit", "reopen-removed-gogit", "reopen-removed-gogit")
 	}
 	ops = append(ops, "open-dangling-gogit")
+	if linked > 0 {
+		ops = append(ops, "remove-packed-ref-gogit")
+	}
 	for _, w := range live {
 		if !w.main && !w.relative {
 			ops = append(ops, "relativize-gitfile")
@@ -384,6 +387,48 @@ func (s *seq) step(r *rand.Rand) {
 			lr := s.g.Run(s.main, "worktree", "list", "--porcelain")
 			if lr.OK() && strings.Contains(string(lr.Out), "worktree "+target.dir+"\n") {
 				s.fail("remove-gogit:still-listed-by-git", "git still lists the removed worktree "+target.dir)
+			}
+		}
+	case "remove-packed-ref-gogit":
+		// references are shared: a packed branch deleted through a linked worktree's repository must be gone for everybody
+		target = pickTarget(false)
+		br := fmt.Sprintf("tmpb%d", s.nstep)
+		desc = fmt.Sprintf("remove-packed-ref-gogit(%s,%s)", target.name, br)
+		if gr := s.g.Run(s.main, "branch", br, commit); !gr.OK() {
+			s.c.Broken("git branch: %s", gr)
+			return
+		}
+		if gr := s.g.Run(s.main, "pack-refs", "--all"); !gr.OK() {
+			s.c.Broken("git pack-refs: %s", gr)
+			return
+		}
+		for _, w := range live { // pack-refs rewrote nothing an isolation view looks at, but refresh the resolved commits
+			if v := s.views[w.dir]; v != nil {
+				v.resolved = s.resolve(v.head)
+			}
+		}
+		if target.relative {
+			op = "gogit-op[relative-gitdir]"
+		}
+		repo, closeFn, err := s.openRepo(target)
+		if err != nil {
+			s.fail(op+":gogit-cannot-open", fmt.Sprintf("go-git cannot open worktree %s: %v", target.dir, err))
+			opErr = err
+			break
+		}
+		pv, stack := vf.Catch(func() { opErr = repo.Storer.RemoveReference(plumbing.NewBranchReferenceName(br)) })
+		closeFn()
+		if pv != nil {
+			s.fail("panic:"+op, fmt.Sprintf("%s panicked: %v\n%s", desc, pv, stack))
+			opErr = fmt.Errorf("panic")
+		}
+		if opErr == nil {
+			s.c.Count("packed_ref_removals", 1)
+			if gr := s.g.Run(s.main, "rev-parse", "-q", "--verify", "refs/heads/"+br); gr.OK() {
+				s.fail(op+":removed-packed-ref-still-visible-from-main", fmt.Sprintf("RemoveReference(refs/heads/%s) through linked worktree %s returned nil, but git in the main worktree still resolves the branch (%s)", br, target.name, strings.TrimSpace(string(gr.Out))))
+			}
+			if _, err := os.Stat(filepath.Join(s.gitdir(target), "packed-refs")); err == nil && !target.main {
+				s.fail(op+":private-packed-refs-written", fmt.Sprintf("RemoveReference through linked worktree %s wrote %s/packed-refs (packed-refs belongs to the common directory)", target.name, s.gitdir(target)))
 			}
 		}
 	case "relativize-gitfile":
@@ -668,6 +713,7 @@ func run(c *vf.Ctx) {
 	c.Floor("worktrees listed by git", c.Counter("worktrees_listed_by_git"), c.N(40, 300))
 	c.Floor("shared store checks", c.Counter("shared_store_checks"), c.N(40, 300))
 	c.Floor("operation kinds", c.SeenCount("ops"), 17)
+	c.Floor("packed refs removed through a linked worktree", c.Counter("packed_ref_removals"), c.N(8, 60))
 	c.Floor("relative .git files accepted by git", c.Counter("relative_gitfile_accepted_by_git"), c.N(10, 80))
 	c.Floor("opens of stale worktree directories (removed or dangling)", c.Counter("stale_open_refused")+c.Counter("stale_open_succeeded"), c.N(40, 300))
 	c.Floor("re-opens of removed worktrees", c.Counter("reopen_removed"), c.N(5, 40))
